@@ -151,8 +151,10 @@ PENDING = {
               "optimisations off): same outputs; up to 40 proofs per program are checked node by node (tuple in the model, children follow "
               "the cited rule as souffle prints it, negated children absent, ground constraints true, leaves are facts; with optimisations "
               "off also: the children instantiate a source rule of the relation under one substitution that satisfies negations and "
-              "constraints and yields the node's tuple); non-members must answer 'Tuple not found'. Two defects repaired."),
-        note="trusts: the reference model; interpreter only; eqrel nodes: membership only; nodes of synthetic relations are counted as not interpretable",
+              "constraints and yields the node's tuple); no tuple may be its own premise on a branch that never reaches facts (40% of the "
+              "programs carry mutually recursive relations over cyclic data); non-members must answer 'Tuple not found'. A few programs "
+              "per run go through generated code (souffle -t explain -o) with the same checker. Two defects repaired."),
+        note="trusts: the reference model; mostly the interpreter (6 / 64 compiled programs per run); eqrel nodes: membership only; nodes of synthetic relations are counted as not interpretable",
         design="6 C19",
     ),
     "C20": dict(
